@@ -25,13 +25,16 @@ type c09Tables struct {
 	d *routing.DomainTable
 	f *routing.ForwardTable
 	a *routing.AgentTable
+	m *routing.Manager // owner of the three tables (nil when they are stand-alone)
 }
 
 var c09S *c09Tables
 
 func c09New(self uint64) *c09Tables {
-	id := c09ID(self)
-	return &c09Tables{routing.NewDomainTable(id), routing.NewForwardTable(id), routing.NewAgentTable(id)}
+	// the tables are a Manager's, so that mdlook / mflook / malook go through Manager.LookupDomain /
+	// LookupForward / LookupAgent, the entry points the agent's dial path uses
+	m := routing.NewManager(c09ID(self))
+	return &c09Tables{m.DomainTable(), m.ForwardTable(), m.AgentTable(), m}
 }
 
 func c09ID(n uint64) identity.AgentID {
@@ -120,10 +123,11 @@ func c09DDump(t *routing.DomainTable) string {
 	for pfx, m := range map[string]map[string][]*routing.DomainRoute{"x:": exact, "w:": wild} {
 		for k, rs := range m {
 			lab := pfx + hexTok([]byte(k))
-			toks := []string{"G" + lab}
+			var es []string
 			for _, r := range rs {
-				toks = append(toks, c09DomStr(r))
+				es = append(es, c09DomStr(r))
 			}
+			toks := append([]string{"G" + lab}, c08NormRuns(es)...)
 			gs = append(gs, [2]string{lab, strings.Join(toks, " ")})
 		}
 	}
@@ -134,10 +138,11 @@ func c09FDump(t *routing.ForwardTable) string {
 	var gs [][2]string
 	for k, rs := range routing.C09ForwardGroups(t) {
 		lab := hexTok([]byte(k))
-		toks := []string{"G" + lab}
+		var es []string
 		for _, r := range rs {
-			toks = append(toks, c09FwdStr(r))
+			es = append(es, c09FwdStr(r))
 		}
+		toks := append([]string{"G" + lab}, c08NormRuns(es)...)
 		gs = append(gs, [2]string{lab, strings.Join(toks, " ")})
 	}
 	return c09JoinGroups(gs)
@@ -147,10 +152,11 @@ func c09ADump(t *routing.AgentTable) string {
 	var gs [][2]string
 	for k, rs := range routing.C09AgentGroups(t) {
 		lab := strconv.FormatUint(c09Num(k), 10)
-		toks := []string{"G" + lab}
+		var es []string
 		for _, r := range rs {
-			toks = append(toks, c09AgStr(r))
+			es = append(es, c09AgStr(r))
 		}
+		toks := append([]string{"G" + lab}, c08NormRuns(es)...)
 		gs = append(gs, [2]string{lab, strings.Join(toks, " ")})
 	}
 	return c09JoinGroups(gs)
@@ -161,6 +167,27 @@ func c09Str(tok string) string { return string(unhexTok(tok)) }
 func c09TablesOp(s *c09Tables, f []string) string {
 	hours := func(x string) time.Duration { return time.Duration(c09U(x)) * time.Hour }
 	switch f[0] {
+	case "oracle": // the generator's claim about strings.ToLower / strings.TrimSpace, verified here
+		in, out := c09Str(f[2]), c09Str(f[3])
+		if (f[1] == "fold" && strings.ToLower(in) == out) || (f[1] == "trim" && strings.TrimSpace(in) == out) {
+			return "ok"
+		}
+		return "bad-oracle"
+	case "mdlook":
+		if r := s.m.LookupDomain(c09Str(f[1])); r != nil {
+			return "route " + c09DomStr(r)
+		}
+		return "none"
+	case "mflook":
+		if r := s.m.LookupForward(c09Str(f[1])); r != nil {
+			return "route " + c09FwdStr(r)
+		}
+		return "none"
+	case "malook":
+		if r := s.m.LookupAgent(c09ID(c09U(f[1]))); r != nil {
+			return "route " + c09AgStr(r)
+		}
+		return "none"
 	case "dadd":
 		ok := s.d.AddRoute(&routing.DomainRoute{Pattern: c09Str(f[1]), IsWildcard: f[2] == "1", BaseDomain: c09Str(f[3]),
 			NextHop: c09ID(c09U(f[4])), OriginAgent: c09ID(c09U(f[5])), Metric: uint16(c09U(f[6])), Sequence: c09U(f[7]), Path: c09Path(f[8])})
@@ -221,11 +248,11 @@ func c09TablesOp(s *c09Tables, f []string) string {
 		}
 		return "none"
 	case "aroutes":
-		toks := []string{"routes"}
+		var es []string
 		for _, r := range s.a.GetRoutesForAgent(c09ID(c09U(f[1]))) {
-			toks = append(toks, c09AgStr(r))
+			es = append(es, c09AgStr(r))
 		}
-		return strings.Join(toks, " ")
+		return strings.Join(append([]string{"routes"}, c08NormRuns(es)...), " ")
 	case "dhas":
 		return fmt.Sprintf("%v", s.d.HasRoute(c09Str(f[1]), c09ID(c09U(f[2]))))
 	case "fhas":
@@ -508,7 +535,7 @@ func c09GenCase(w *bufio.Writer, r *rng, nops, agents int) {
 			case k < 64:
 				fmt.Fprintf(w, "dhas %s %d\n", hx(p), 1+r.intn(agents+1))
 			default:
-				fmt.Fprintf(w, "dlook %s\n", hx(c09Name(r, pats)))
+				fmt.Fprintf(w, "%s %s\n", r.pickS("dlook", "dlook", "mdlook"), hx(c09Name(r, pats)))
 			}
 		case tbl < 8: // forward table
 			key := keys[r.intn(len(keys))]
@@ -526,7 +553,7 @@ func c09GenCase(w *bufio.Writer, r *rng, nops, agents int) {
 			case k < 68:
 				fmt.Fprintf(w, "fhas %s %d\n", hx(key), 1+r.intn(agents+1))
 			default:
-				fmt.Fprintf(w, "flook %s\n", hx(key))
+				fmt.Fprintf(w, "%s %s\n", r.pickS("flook", "mflook"), hx(key))
 			}
 		default: // agent table: at most 3 origins x 4 next hops = 12 entries per agent
 			if common("a", k) {
@@ -543,7 +570,7 @@ func c09GenCase(w *bufio.Writer, r *rng, nops, agents int) {
 			case k < 70:
 				fmt.Fprintf(w, "aroutes %d\n", 1+r.intn(5))
 			default:
-				fmt.Fprintf(w, "alook %d\n", 1+r.intn(5))
+				fmt.Fprintf(w, "%s %d\n", r.pickS("alook", "malook"), 1+r.intn(5))
 			}
 		}
 	}
@@ -695,8 +722,47 @@ func c09GenCaseMatrix(w *bufio.Writer, r *rng) {
 	look()
 }
 
+// c09GenTies: more than 12 entries with few distinct metrics under one key of each table (see
+// c08GenTies). In the agent table every entry has its own origin, so that RemoveRoute (first entry
+// of the origin) stays unambiguous whatever order sort.Slice left inside a run.
+func c09GenTies(w *bufio.Writer, r *rng, n int) {
+	fmt.Fprintln(w, "reset 1")
+	hx := func(s string) string { return hexTok([]byte(s)) }
+	for i := 0; i < n; i++ {
+		m := r.pick(1, 2, 2, 3)
+		fmt.Fprintf(w, "dadv %s %d %d %d 5 %d\n", hx(r.pickS("*.Tie.example", "*.tie.EXAMPLE")), 2+i%7, 100+i, m, 100+i)
+		fmt.Fprintf(w, "fadd %s %s %d %d %d 5 %d\n", hx("tiekey"), hx("h:1"), 2+i%7, 100+i, m, 100+i)
+		fmt.Fprintf(w, "aadd 7 %d %d %d 5 %d\n", 2+i%7, 100+i, m, 100+i)
+		if i%6 == 5 {
+			fmt.Fprintf(w, "dlook %s\nflook %s\nalook 7\n", hx("x.TIE.example"), hx("tiekey"))
+		}
+	}
+	fmt.Fprintf(w, "dlook %s\nflook %s\nalook 7\naroutes 7\n", hx("x.TIE.example"), hx("tiekey"))
+	for i := 0; i < 24; i++ {
+		o := 100 + r.intn(n)
+		m := r.pick(1, 1, 2, 3)
+		switch r.intn(5) {
+		case 0, 1:
+			fmt.Fprintf(w, "dadv %s 3 %d %d %d %d\nfadd %s %s 3 %d %d %d %d\naadd 7 %d %d %d %d %d\n", hx("*.tie.example"), o, m, 6+i, o, hx("tiekey"), hx("h:2"), o, m, 6+i, o, 2+(o-100)%7, o, m, 6+i, o)
+		case 2, 3:
+			fmt.Fprintf(w, "drm %s %d\nfrm %s %d\narm 7 %d\n", hx("*.TIE.EXAMPLE"), o, hx("tiekey"), o, o)
+		default:
+			p := 2 + r.intn(7)
+			fmt.Fprintf(w, "ddisc %d\nfdisc %d\nadisc %d\n", p, p, p)
+		}
+		fmt.Fprintf(w, "dlook %s\nflook %s\nalook 7\naroutes 7\n", hx("x.TIE.example"), hx("tiekey"))
+	}
+}
+
 func c09Gen(w *bufio.Writer, seed int64, tier string) {
 	r := newRng(c09Mix(seed))
+	ties := 2
+	if tier == "thorough" {
+		ties = 25
+	}
+	for c := 0; c < ties; c++ {
+		c09GenTies(w, r, 14+r.intn(40))
+	}
 	matrix := 6
 	if tier == "thorough" || seed >= 1000 {
 		matrix = 120
